@@ -228,6 +228,17 @@ BStep(b, c) == IF ~b.ok THEN b
 \* the grouping symbols of the text are properly nested
 Balanced(s) == LET b == FoldLeft(BStep, [ok |-> TRUE, st |-> <<>>], Chars(s)) IN b.ok /\ b.st = <<>>
 
+\* Expression.__init__: how the text of a term token selects the matching mode
+\* ("@term" = must-not-occur is outside the property's grammar; the "@" is only stripped here)
+AtomOf(t) ==
+    LET t1 == IF Len(t) > 0 /\ Ch(t, 1) = "@" THEN SubSeq(t, 2, Len(t)) ELSE t
+        quoted == Len(t1) > 2 /\ Ch(t1, 1) = "\"" /\ Ch(t1, Len(t1)) = "\""
+        t2 == IF quoted THEN SubSeq(t1, 2, Len(t1) - 1) ELSE t1
+        star == \E i \in 1..Len(t2) : Ch(t2, i) = "*"
+        slash == \E i \in 1..Len(t) : Ch(t, i) = "/"
+        t3 == FoldLeft(LAMBDA acc, c : IF c = "*" THEN acc ELSE acc \o c, "", Chars(t2))
+    IN [op |-> IF star THEN "prefix" ELSE IF quoted \/ slash THEN "exact" ELSE "term", t |-> t3]
+
 (* ---- the parser as a pushdown automaton -------------------------------- *)
 \* lenient = TRUE: the behaviour of _handle_grouping_op, which takes ANY token that is not an
 \* opening symbol as a search term; lenient = FALSE: what the property requires (a token made of
